@@ -98,7 +98,9 @@ func must(err error) {
 
 type fakeHAProxy struct {
 	mu        sync.Mutex
-	failRound int // PUT/DELETE on the admin port answer 500 while the reload round equals this (0 = never)
+	failRound int    // PUT/DELETE on the admin port answer 500 while the reload round equals this (0 = never)
+	failCall  string // in round 1, refuse only the PUTs of this admin path ... (op fault hacall:<call>:<file>)
+	failFile  string // ... for the endpoints of this configuration file
 	round     func() int
 	adminHits int
 	failed    int
@@ -113,6 +115,10 @@ func (f *fakeHAProxy) admin(w http.ResponseWriter, r *http.Request) {
 	f.adminHits++
 	f.lastHit = time.Now()
 	fail := f.failRound != 0 && r.Method == http.MethodPut && f.round() == f.failRound
+	if f.failCall != "" {
+		fail = r.Method == http.MethodPut && f.round() == 1 && r.URL.Path == f.failCall &&
+			endpointFile(string(body)) == f.failFile
+	}
 	if fail {
 		f.failed++
 	} else if r.URL.Path == "/managed_endpoint" {
@@ -143,20 +149,7 @@ func (f *fakeHAProxy) resetManaged() {
 // managedFiles maps the managed endpoint expressions (METHOD:::<stem>\.test(/.*)? , …\.quota…) back to the
 // configuration files they come from; a file only part of whose endpoints is managed is marked.
 func (f *fakeHAProxy) managedFiles() string {
-	file := func(ep string) string {
-		i := strings.Index(ep, ":::")
-		if i < 0 {
-			return "?" + ep
-		}
-		host := ep[i+3:]
-		switch {
-		case strings.Contains(host, `\.test`):
-			return "f/" + host[:strings.Index(host, `\.test`)] + ".yaml"
-		case strings.Contains(host, `\.quota`):
-			return "q/" + host[:strings.Index(host, `\.quota`)] + ".yaml"
-		}
-		return "?" + ep
-	}
+	file := endpointFile
 	f.mu.Lock()
 	defer f.mu.Unlock()
 	total, on := map[string]int{}, map[string]int{}
@@ -178,6 +171,22 @@ func (f *fakeHAProxy) managedFiles() string {
 		return "%e"
 	}
 	return strings.Join(out, ",")
+}
+
+// endpointFile maps an endpoint expression to the configuration file it comes from.
+func endpointFile(ep string) string {
+	i := strings.Index(ep, ":::")
+	if i < 0 {
+		return "?" + ep
+	}
+	host := ep[i+3:]
+	switch {
+	case strings.Contains(host, `\.test`):
+		return "f/" + host[:strings.Index(host, `\.test`)] + ".yaml"
+	case strings.Contains(host, `\.quota`):
+		return "q/" + host[:strings.Index(host, `\.quota`)] + ".yaml"
+	}
+	return "?" + ep
 }
 
 // quiesce waits until the admin port has been silent for a while (the delayed un-manage goroutines
@@ -203,8 +212,16 @@ func (f *fakeHAProxy) health(w http.ResponseWriter, r *http.Request) {
 	w.Write([]byte("OK"))
 }
 
+// refuse makes the stub refuse ONE named admin call of the endpoints of one file, in reload round 1.
+func (f *fakeHAProxy) refuse(call, file string) {
+	f.mu.Lock()
+	f.failCall, f.failFile = call, file
+	f.mu.Unlock()
+}
+
 func (f *fakeHAProxy) set(round int) {
 	f.mu.Lock()
+	f.failCall, f.failFile = "", ""
 	f.failRound = round
 	f.failed = 0
 	f.mu.Unlock()
@@ -557,6 +574,72 @@ func render(logical, tok string, builtin []byte) []byte {
 		return []byte("name: [unclosed\n  - : :\n\t{{{\n")
 	case strings.HasPrefix(tok, "x"):
 		return []byte(tok)
+	case strings.HasPrefix(logical, "f/") && tok[0] == 'b':
+		// the flow v<k> preceded by a processor that needs the request body (UserDefinedMetrics): the engine
+		// also asks HAProxy to ship the body for its endpoints (PUT /include_body_from)
+		st := stem(logical)
+		return []byte(fmt.Sprintf(`name: flow_%[1]s
+filter:
+  url: %[1]s.test/*
+processors:
+  Peek%[1]s:
+    processor: UserDefinedMetrics
+    parameters:
+      - key: metric_name
+        value: c08_%[1]s_calls
+  Flt%[1]s:
+    processor: Filter
+    parameters:
+      - key: method
+        value: GET
+  Gen%[1]s:
+    processor: GenerateResponse
+    parameters:
+      - key: status
+        value: %[2]d
+      - key: body
+        value: b%[3]d
+      - key: Content-Type
+        value: text/plain
+flow:
+  request:
+    - from:
+        stream:
+          name: globalStream
+          at: start
+      to:
+        processor:
+          name: Peek%[1]s
+    - from:
+        processor:
+          name: Peek%[1]s
+      to:
+        processor:
+          name: Flt%[1]s
+    - from:
+        processor:
+          name: Flt%[1]s
+          condition: hit
+      to:
+        processor:
+          name: Gen%[1]s
+    - from:
+        processor:
+          name: Flt%[1]s
+          condition: miss
+      to:
+        stream:
+          name: globalStream
+          at: end
+  response:
+    - from:
+        processor:
+          name: Gen%[1]s
+      to:
+        stream:
+          name: globalStream
+          at: end
+`, st, 400+k, k))
 	case strings.HasPrefix(logical, "f/") && tok[0] == 'w':
 		// the same flow as v<k>, in a longer file (so that rewrites lengthen and shorten files)
 		b := render(logical, "v"+tok[1:], builtin)
@@ -630,6 +713,9 @@ flow:
 		return []byte(fmt.Sprintf("path_params:\n  - url: %s.pp/a/{id%d}\n", stem(logical), k))
 	case logical == "g" && tok[0] == 'g':
 		return []byte(fmt.Sprintf("allowed_domains:\n  - d%d.test\n", k))
+	case (logical == "um" || logical == "dm") && tok[0] == 'n':
+		// the FULL built-in metrics file: extends the configuration loaded at start-up by one metric
+		return append(append([]byte{}, builtinFull...), []byte(fmt.Sprintf("\n# full variant %d\n", k))...)
 	case (logical == "um" || logical == "dm") && tok[0] == 'm':
 		if k == 0 {
 			return builtin
@@ -641,6 +727,7 @@ flow:
 
 var (
 	builtinMetrics []byte
+	builtinFull    []byte
 	revTok         = map[string]string{} // logical + "\x00" + sha -> token
 )
 
